@@ -251,6 +251,21 @@ func Y[T any](x T, site string) T {
 	return x
 }
 
+// YieldPoint is a generic scheduling point (used by simos for every routed
+// file-system call): a yield under ModeSched, a seeded Gosched under ModeStress.
+func YieldPoint(site string) {
+	s := cur.Load()
+	if s == nil {
+		return
+	}
+	switch s.Mode {
+	case ModeSched:
+		s.yield(site)
+	case ModeStress:
+		s.stressYield()
+	}
+}
+
 func (s *Sim) stressYield() {
 	n := s.stressCtr.Add(1)
 	z := (n + s.stressSeed) * 0x9e3779b97f4a7c15
